@@ -40,7 +40,7 @@ macro_rules! cut {
 cut!(q_h11cut__stts_e1, 5, SttsBox, any_stts::<1>(), ref_stts, 32);
 cut!(q_h11cut__stsc_e1, 5, StscBox, any_stsc::<1>(), ref_stsc, 36);
 cut!(t_h11cut__stsz_table_e1, 11, StszBox, any_stsz::<1>(false), ref_stsz, 32);
-cut!(t_h11cut__stco_e1, 11, StcoBox, any_stco::<1>(), ref_stco, 28);
+cut!(q_h11cut__stco_e1, 11, StcoBox, any_stco::<1>(), ref_stco, 28);
 cut!(q_h11cut__ctts_e1, 5, CttsBox, any_ctts::<1>(), ref_ctts, 32);
 cut!(q_h11cut__tkhd_v0, 4, TkhdBox, any_tkhd(0), ref_tkhd, 100);
 cut!(q_h11cut__tfhd_opt39, 4, TfhdBox, any_tfhd(0x39), ref_tfhd, 48);
